@@ -186,7 +186,13 @@ impl TcpChannelTask {
                 if let Err(err) = stream.set_nodelay(true) {
                     tracing::warn!("unable to enable TCP_NODELAY: {}", err);
                 }
-                match self.connection_handler.handle(stream, &self.host).await {
+                // requests keep failing fast, and disable / shutdown keep working, while a
+                // (TLS) handshake is in progress
+                let res = tokio::select! {
+                    res = self.connection_handler.handle(stream, &self.host) => res,
+                    change = self.client_loop.fail_requests() => return Err(change),
+                };
+                match res {
                     Err(err) => self.handle_failed_connection(err).await,
                     Ok(phys) => self.run_connection(phys).await,
                 }
